@@ -473,6 +473,82 @@ type held struct {
 	Get  func() string
 }
 
+// c09Rare: statements with constructs the model grammar produces seldom or not at all.
+var c09Rare = []string{
+	"SELECT a FROM t WHERE MATCH (a, b) AGAINST ('x' IN BOOLEAN MODE)", "SELECT MATCH (a) AGAINST ('y' IN NATURAL LANGUAGE MODE) FROM t ORDER BY MATCH (a) AGAINST ('y' WITH QUERY EXPANSION)",
+	"SELECT a FROM t WHERE MATCH (a) AGAINST ('z' IN NATURAL LANGUAGE MODE WITH QUERY EXPANSION)", "SELECT a FROM t WHERE MATCH (a) AGAINST ('q')",
+	"SELECT INTERVAL '1 day', CURRENT_DATE, CURRENT_TIMESTAMP, NULL, TRUE, FALSE FROM t", "SELECT COUNT(*), COUNT(DISTINCT a), SUM(b) FILTER (WHERE c) FROM t",
+	"SELECT ROW_NUMBER() OVER (PARTITION BY a ORDER BY b ROWS BETWEEN UNBOUNDED PRECEDING AND CURRENT ROW) FROM t", "SELECT RANK() OVER (ORDER BY a RANGE BETWEEN 1 PRECEDING AND UNBOUNDED FOLLOWING) FROM t",
+	"SELECT * FROM t", "SELECT t.* FROM t", "SELECT a FROM t ORDER BY a NULLS FIRST, b DESC NULLS LAST", "SELECT a FROM t LIMIT 10 OFFSET 5", "SELECT a FROM t FETCH FIRST 3 ROWS ONLY", "SELECT a FROM t FOR UPDATE SKIP LOCKED",
+	"SELECT EXTRACT(YEAR FROM d), CAST(a AS INT), a::text, SUBSTRING(s FROM 1 FOR 2), POSITION('a' IN s) FROM t", "SELECT CASE WHEN a THEN 1 ELSE 0 END, CASE a WHEN 1 THEN 2 END FROM t",
+	"SELECT ARRAY[1, 2], a[1], a[1:2], (1, 2), a -> 'k', a ->> 'k' FROM t", "SELECT a FROM t GROUP BY ROLLUP (a, b), CUBE (c), GROUPING SETS ((a), ())", "SELECT a FROM t WHERE a IS NULL OR b IS NOT NULL OR c BETWEEN 1 AND 2 OR d LIKE 'x' OR e IN (1, 2)",
+	"SELECT a FROM t WHERE EXISTS (SELECT 1 FROM u) AND a = ANY (SELECT b FROM u) AND c > ALL (SELECT d FROM u)", "SELECT a FROM t NATURAL JOIN u CROSS JOIN v LEFT JOIN w USING (a)", "SELECT a FROM t JOIN LATERAL (SELECT 1) l ON TRUE",
+	"WITH RECURSIVE r (n) AS (SELECT 1 UNION ALL SELECT n + 1 FROM r) SELECT n FROM r", "WITH d AS (DELETE FROM t RETURNING a) SELECT * FROM d", "SELECT 1 UNION ALL SELECT 2 EXCEPT SELECT 3",
+	"INSERT INTO t (a) VALUES (DEFAULT), (NULL) ON CONFLICT (a) DO NOTHING", "INSERT INTO t (a) VALUES (1) ON DUPLICATE KEY UPDATE a = 2", "INSERT INTO t (a) VALUES (1) ON CONFLICT (a) DO UPDATE SET a = 1 RETURNING *",
+	"UPDATE t SET a = DEFAULT, b = NULL WHERE c RETURNING *", "DELETE FROM t USING u WHERE t.a = u.a RETURNING *", "MERGE INTO t USING s ON t.id = s.id WHEN MATCHED THEN DELETE WHEN NOT MATCHED THEN INSERT (a) VALUES (1)",
+	"CREATE TABLE t (a INT PRIMARY KEY, b TEXT NOT NULL DEFAULT 'x' UNIQUE, c INT REFERENCES u (a) ON DELETE CASCADE, CHECK (a > 0))", "CREATE TABLE IF NOT EXISTS t (a INT) PARTITION BY RANGE (a)", "ALTER TABLE t ADD COLUMN c INT, DROP COLUMN d",
+	"CREATE INDEX IF NOT EXISTS i ON t (a)", "CREATE UNIQUE INDEX i ON t USING btree (a) WHERE a > 0", "CREATE VIEW v AS SELECT 1", "CREATE MATERIALIZED VIEW v AS SELECT 1", "REFRESH MATERIALIZED VIEW v", "DROP TABLE IF EXISTS t CASCADE", "TRUNCATE TABLE t",
+	"SHOW TABLES", "DESCRIBE t", "EXPLAIN SELECT 1", "REPLACE INTO t (a) VALUES (1)", "SELECT a FROM t TABLESAMPLE SYSTEM (10)", "SELECT TOP 5 a FROM t", "SELECT DISTINCT ON (a) a, b FROM t",
+}
+
+// c09Disjoint: no node (pointer to a non-empty struct) is reachable from two live trees.
+func c09Disjoint(a *ChildArgs, trees []*ast.AST, hist []string, sql string) {
+	if len(trees) < 2 {
+		return
+	}
+	owner := map[uintptr]int{}
+	a.Rec.Count("disjointness_checks", 1)
+	for ti, t := range trees {
+		seen := map[uintptr]bool{}
+		var walk func(v reflect.Value, d int)
+		walk = func(v reflect.Value, d int) {
+			if d > 400 || !v.IsValid() {
+				return
+			}
+			switch v.Kind() {
+			case reflect.Ptr:
+				if v.IsNil() {
+					return
+				}
+				e := v.Elem()
+				if e.Kind() == reflect.Struct && e.Type().Size() > 0 {
+					p := v.Pointer()
+					if seen[p] {
+						return
+					}
+					seen[p] = true
+					if o, ok := owner[p]; ok && o != ti {
+						a.Rec.Viol("C09/own/tree/node-shared/"+e.Type().Name(), "returned values belong to the caller: two trees never share a node",
+							fmt.Sprintf("a %s is reachable from two live trees (held trees %d and %d) after parsing %s", e.Type().Name(), o, ti, trunc(sql, 160)),
+							map[string]interface{}{"history": hist, "sql": sql})
+						return
+					}
+					owner[p] = ti
+				}
+				walk(e, d+1)
+			case reflect.Interface:
+				if !v.IsNil() {
+					walk(v.Elem(), d+1)
+				}
+			case reflect.Struct:
+				for i := 0; i < v.NumField(); i++ {
+					walk(v.Field(i), d+1)
+				}
+			case reflect.Slice, reflect.Array:
+				for i := 0; i < v.Len(); i++ {
+					walk(v.Index(i), d+1)
+				}
+			case reflect.Map:
+				it := v.MapRange()
+				for it.Next() {
+					walk(it.Value(), d+1)
+				}
+			}
+		}
+		walk(reflect.ValueOf(t), 0)
+	}
+}
+
 func c09Ownership(a *ChildArgs, workers int) {
 	avoid := mon.AvoidFeatures()
 	base := a.Seed*7919 + int64(a.Shard)*104729
@@ -502,12 +578,18 @@ func c09Ownership(a *ChildArgs, workers int) {
 				op := []string{"parse-hold", "parse-hold", "tokenize-hold", "comments-hold", "parse-release", "format", "extract-hold", "scan-hold", "release-held-tree", "pool-churn", "parse-with-comments-format",
 					"batch-hold", "rejected-calls", "release-held-tree", "parser-tokens-hold", "transform-two", "transform-where-held", "text-scan-custom-rule"}[r.Intn(18)]
 				sql := gen.Plain(g.Statement(2).Toks)
+				if r.Intn(4) == 0 {
+					// rarer constructs, and the same text more than once in a history: two live trees that hold the same
+					// construct are what exposes a node the parser builds once and hands to both
+					sql = c09Rare[r.Intn(len(c09Rare))]
+				}
 				switch op {
 				case "parse-hold":
 					if t, err := gosqlx.Parse(sql); err == nil {
 						trees = append(trees, t)
 						tt := t
 						holds = append(holds, held{Ptr: tt, What: "tree", Snap: dump.Dump(tt), Get: func() string { return dump.Dump(tt) }})
+						c09Disjoint(a, trees, hist, sql)
 					}
 				case "batch-hold":
 					// a batch with a repeated member: every result is the caller's own tree
@@ -525,6 +607,7 @@ func c09Ownership(a *ChildArgs, workers int) {
 							trees = append(trees, tt)
 							holds = append(holds, held{Ptr: tt, What: "tree", Snap: dump.Dump(tt), Get: func() string { return dump.Dump(tt) }})
 						}
+						c09Disjoint(a, trees, hist, sql)
 					}
 				case "rejected-calls":
 					// calls that return no tree must not leave anything shared behind: statement-less and malformed inputs
